@@ -356,6 +356,18 @@ def r26d(ctx, run):
 
     def topo_calls(name):
         return [c for c in fn.calls() if short(c.callee) == name and "topo::TopoSort" in c.callee]
+    # an item leaves the schedule in one way only: remove(item) after it completed.  The draining methods take items out together with every
+    # dependency that was registered on and for them; an item that is put back afterwards has forgotten what it was waiting for.
+    DRAINING = ("pop", "pop_all", "pop_cyclic", "pop_all_cyclic", "clear")
+    drains = [c for c in fn.calls() if short(c.callee) in DRAINING and "topo::TopoSort" in c.callee]
+    for c in drains:
+        run.finding(FN, "drains-schedule:" + short(c.callee), c.file, c.ln,
+                    "finish takes items out of the schedule with TopoSort::%s: that forgets every dependency registered so far, also those of items that do not complete in this round "
+                    "and are inserted again - a later round then offers an item whose registered dependency has not completed.  Items may only be looked at (peek_all / peek_all_cyclic) "
+                    "and leave through remove(item) once they completed" % short(c.callee))
+    if drains:
+        return
+    run.ok(FN, "finish never drains the schedule (no %s)" % " / ".join(DRAINING))
     pa, pac, rm, idp, emp, ext = (topo_calls(n) for n in ("peek_all", "peek_all_cyclic", "remove", "insert_deps", "is_empty", "extend"))
     infer = [c for c in fn.calls() if short(c.callee) == "infer" and "InferenceCtx" in c.callee]
     if not (len(pa) == 1 and len(pac) == 1 and rm and idp and emp and ext and len(infer) == 1):
